@@ -66,7 +66,7 @@ class KSWINConfig(BaseWindowConfig):
         :type value: int
         :raises ValueError: Value error exception
         """
-        if value <= 0:
+        if not value > 0:
             raise ValueError("alpha value must be greater than 0.")
         self._alpha = value
 
